@@ -144,7 +144,9 @@ def run(ctx):
         if thorough:
             ctx.tlc_expect_ok("ocache", "OCacheMC", "OCache_mc_t.cfg", coverage=True, timeout=3000, workers=workers, name="mc 2 ids, 2-3 ops")
             ctx.tlc_expect_ok("ocache", "OCacheMC", "OCache_mc_t4.cfg", timeout=3000, workers=workers, name="mc 1 id, 4 ops")
-            ctx.tlc_expect_ok("ocache", "OCacheMC", "OCache_sim4.cfg", simulate=30000, depth=150, timeout=1500,
+            ctx.tlc_expect_ok("ocache", "OCacheMC", "OCache_mc_t42.cfg", timeout=3000, workers=workers,
+                              name="mc 2 ids, 4 ops (Get/Remove/TryRemove/Close, loads succeed, no cancellation)")
+            ctx.tlc_expect_ok("ocache", "OCacheMC", "OCache_sim4.cfg", simulate=5000, depth=150, timeout=1500,
                               workers=workers, count=False, name="random walks 2 ids, 4 ops")
         else:
             ctx.tlc_expect_ok("ocache", "OCacheMC", "OCache_mc_q.cfg", timeout=1500, workers=workers, name="mc 1 id, 2-3 ops")
